@@ -208,6 +208,15 @@ fn run(a: &[&str]) -> String {
                 Err(_) => "err".to_string(),
             }
         }
+        "round_progress" => {
+            match radix_common::types::Round::calculate_progress(
+                radix_common::types::Round::of(a[1].parse().unwrap()),
+                radix_common::types::Round::of(a[2].parse().unwrap()),
+            ) {
+                Some(d) => format!("some {}", d),
+                None => "none".to_string(),
+            }
+        }
         "addr_decode" => addr_decode(&a[1..]),
         "addr_encode" => addr_encode(&a[1..]),
         "grc_valid_nf" => {
